@@ -299,6 +299,32 @@ def fam_inflight(seed, dirs=("fwd", "rev"), fcs=("fc", "nofc")):
     return out
 
 
+def fam_misuse(seed, dirs=("fwd", "rev")):
+    """applications that misuse a stream (half-close twice, send after half-close, send / half-close after the RPC
+    ended, a handler that sets headers after sending): the library must refuse - whatever it returns to the
+    application, what it puts on the wire still follows the protocol and nothing reported as sent is lost"""
+    out = []
+    for cname, cfg in cfgs(dirs, ("fc", "nofc")):
+        cfg = dict(cfg, keepSending=True)
+        variants = {
+            "half2": ([op("new", shape="bidi"), op("send", n=5), op("half"), op("half"), op("recv"), op("recv")],
+                      [op("recv"), op("recv"), op("send", n=3), op("ret", code=0)]),
+            "send-after-half": ([op("new", shape="bidi"), op("send", n=5), op("half"), op("send", n=6), op("half"), op("recv"), op("recv")],
+                                [op("recv"), op("recv"), op("send", n=3), op("ret", code=0)]),
+            "cstream-half2": ([op("new", shape="cstream"), op("send", n=5), op("half"), op("half"), op("recv"), op("recv")],
+                              [op("recv"), op("recv"), op("send", n=3), op("ret", code=0)]),
+            "after-end": ([op("new", shape="bidi"), op("send", n=5), op("recv"), op("recv"), op("send", n=6), op("half"), op("half")],
+                          [op("recv"), op("send", n=3), op("ret", code=0)]),
+            "hdr-after-send": ([op("new", shape="bidi"), op("send", n=5), op("half"), op("recv"), op("recv"), op("recv")],
+                               [op("recv"), op("send", n=3), op("sethdr", md=MD_POOL["h1"]), op("sendhdr", md=MD_POOL["h2"]), op("send", n=4), op("ret", code=0)]),
+        }
+        for vname, (c, s) in variants.items():
+            for pol in ("eager", "lazy"):
+                out.append(scenario("misuse-%s-%s-%s" % (vname, cname, pol), cfg, [{"rpc": 1, "c": {"m": c}, "s": {"m": s}}],
+                                    {"kind": pol, "seed": seed, "max": 300}, meta={"family": "misuse"}))
+    return out
+
+
 def fam_stalled_close(seed, dirs=("fwd", "rev")):
     """the tunnel is closed (or stopped) while a send is stalled inside the transport (bounded carrier, nobody
     delivering): the library must end the tunnel without breaking the transport's usage contract"""
